@@ -260,7 +260,16 @@ func hostileMain(rc *RunCtx) {
 		rc.Fail("C05", "setup", "", "AddTorrent: %v", err)
 		return
 	}
-	w.Link = func() (simnet.LinkCfg, simnet.LinkCfg) { return drawSysLink(st) }
+	w.Link = func() (simnet.LinkCfg, simnet.LinkCfg) {
+		out, in := drawSysLink(st)
+		if quiet {
+			// allocation is measured per message: deliver each write in
+			// one piece, so that the simulated network's own bookkeeping
+			// (a segment and a timer per byte) stays out of the figure
+			in.Seg, out.Seg = simnet.SegWhole, simnet.SegWhole
+		}
+		return out, in
+	}
 	// an honest seed, which may or may not hand out the metadata
 	seedCfg := drawSeedCfg(st, "honest", 7000)
 	seedCfg.NoMetadata = magnet && st.Bool(1, 2)
@@ -373,7 +382,7 @@ func hostileMain(rc *RunCtx) {
 						simrt.Sleep(time.Second)
 					}
 					a1, h1 := alloc.Bytes(), heapAllocBytes()
-					bound := uint64(32<<20) + 64*uint64(len(frame)) + 32*uint64(spec.Geo.NPieces) + 2*uint64(spec.Geo.PieceSize)
+					bound := uint64(32<<20) + 128*uint64(len(frame)) + 32*uint64(spec.Geo.NPieces) + 2*uint64(spec.Geo.PieceSize)
 					if h1-h0 > bound {
 						class := hm.class
 						if class == "" && state == "before-metadata" && bigVote > 0 && h1-h0 <= bigVote+bound {
